@@ -142,7 +142,7 @@ theorem null_yields_full (B : Nat) (hB : B = 512 ∨ B = 1024) (st : PadState) (
   have hlen : (Padder.blockAt ⟨.null, B⟩ m k ++ List.replicate (B / 8 - (Padder.blockAt ⟨.null, B⟩ m k).length) 0).length = B / 8 := by
     simp only [List.length_append, List.length_replicate]
     rcases hB with rfl | rfl <;> omega
-  simp only [Padder.blocklen, hlen, ne_eq, not_true_eq_false, if_false, List.length_drop, Nat.sub_self, Nat.lt_irrefl, gt_iff_lt]
+  simp only [Padder.finishTail, Padder.blocklen, hlen, ne_eq, not_true_eq_false, if_false, List.length_drop, Nat.sub_self, Nat.lt_irrefl, gt_iff_lt]
   congr 2
   rw [List.take_of_length_le (by omega)]
   congr 1
